@@ -1,5 +1,8 @@
 import ZV.Model.C28
 import ZV.Proofs.C28
+import ZV.Proofs.C28Ext
+import ZV.Proofs.C28CH
+import ZV.Proofs.C28SH
 /-!
   C28 — the client handshake log records what was actually exchanged.
 
@@ -20,7 +23,44 @@ import ZV.Proofs.C28
                               the log are the corresponding wire fields.
   * `cert_log_eq_wire`        Certificate: leaf ‖ chain of the log are exactly the 24-bit-framed entries of the message.
   * `fin_log_eq_wire`         Finished: verify_data is the whole body.
-  The remaining ServerHello / ClientHello extension mappings are exercised by T2 only (no theorem).
+  * `ch_log_eq_wire`          ClientHello, for every accepted byte string: the message is exactly
+                              hdr(4) ‖ version ‖ random(32) ‖ len8‖session id ‖ len16‖suites ‖ len8‖compression methods ‖ ext,
+                              the logged version / random / session id / suites (big-endian pairs, `pairsBE`, even length) /
+                              compression methods are those fields, `ext` is empty or len16 ‖ blk with blk EXACTLY the
+                              concatenation of id ‖ len ‖ data of an extension list `es` (`FramedExts`; the list is unique,
+                              `ext_block_determined`), the extension loop ran over `es` starting from
+                              `renegSup := SCSV offered`, and every extension-derived log field is the function of `es`
+                              spelled out in `CHExtSpec` (= `ch_log_ext_eq_wire`), field by field, duplicates included
+                              (no distinctness hypothesis):
+      `ch_log_ext_shapes`       wire shape of every logged extension (`CHExtShape`: length prefixes, non-emptiness, evenness)
+      `ch_log_ext_curves` / `ch_log_ext_versions`   supported_groups (10) / supported_versions (43): concatenation, in wire
+                                order, of the uint16 lists of ALL such extensions
+      `ch_log_ext_sighashes`    signature_algorithms (13): likewise, then mapped through `sigAlgLookup` with unknown schemes
+                                dropped; `sigAlgLookup_table`: the lookup is membership in `sigAlgTable`
+      `ch_log_ext_alpn`         ALPN (16): concatenation of the protocol lists (8-bit-length-prefixed, non-empty) of all ALPN exts
+      `ch_log_ext_points` / `ch_log_ext_xrand`      ec_point_formats (11) / extended_random (0x28): the LAST one wins
+      `ch_log_ext_ticket`       session_ticket (35): flag = presence; ticket record = (length, data) of the LAST one, present
+                                iff that data is non-empty
+      `ch_log_ext_reneg`        renegotiation_info (0xff01): as MakeLog computes it (supported ∧ last payload non-empty), which
+                                is: the last such extension carries more than its length byte; the SCSV alone or an empty
+                                renegotiation_info is logged as false
+      `ch_log_ext_ocsp`         status_request (5): NOT presence — `status_type = 1` of the LAST status_request
+      `ch_log_ext_flags`        SCT (18), extended_master_secret (23): presence
+      `ch_log_ext_sni`          server_name (0): the name loop runs over the lists of ALL server_name extensions; either no
+                                host_name entry (nothing logged) or exactly ONE, non-empty, without trailing dot = the log
+      `ch_log_no_ext`           no extensions: every one of these fields has its default value
+  * `sh_log_ext_eq_wire`      ServerHello incl. extensions: fixed part as in `sh_log_eq_wire`, the block framing as above, the
+                              logged extension identifiers are exactly the identifiers of `es` in wire order, and every
+                              extension-derived field is the function of `es` in `SHExtSpec`:
+      `sh_log_ext_shapes`, `sh_log_ext_flags` (5 / 35 / 23 = presence), `sh_log_ext_reneg`, `sh_log_ext_alpn` (the single
+      protocol of the last ALPN ext), `sh_log_ext_scts` (all SCT lists concatenated), `sh_log_ext_version_keyshare` (43: last
+      wins; 51: as MakeLog computes it), `sh_log_ext_unknown` (every extension without an arm of its own, VERBATIM wire bytes,
+      in order).
+  * `ext_lists_determined`    the decoded ALPN / SNI / SCT lists in the statements above are determined by the bytes.
+  Nothing of the ClientHello / ServerHello log mapping is correspondence-only any more.  What the theorems do not say:
+  the converse (which byte strings are ACCEPTED) is only given as necessary shapes, not as an iff; the extensions that
+  never reach the log (ClientHello 50, 44, 51, 42, 45, 41; ServerHello 44, 41, 11) are proved to leave the record unchanged
+  (`chExt_other`, `shExt_nolog`) but their own syntax checks are exercised by T2 only.
 -/
 namespace ZV.C28
 
@@ -180,6 +220,543 @@ theorem fin_log_eq_wire {msg v : Bytes} (h : parseFin msg = some v) :
       subst h
       obtain ⟨a, b, c, rfl, hl⟩ := readVec24_spec h1
       exact ⟨t, a, b, c, by simp, hl⟩
+
+/-! ## ClientHello: `clientHelloMsg.unmarshal` + `MakeLog`, extension by extension
+
+  Throughout, `es` is the list of (identifier, data) pairs of the extension block in WIRE ORDER (`FramedExts blk es`,
+  see `ch_log_eq_wire`), duplicates included: no "identifiers are distinct" hypothesis anywhere.
+  `es.filter (isId k)` = the extensions with identifier `k`, in wire order; `lastExt (isId k) es` = the data of the
+  last one.  The hypothesis `chExts { renegSup := r } es = some m` is what `parseCH` establishes (`r` = SCSV offered). -/
+
+/-- every logged-extension's data has the shape its RFC prescribes (anything else makes the parser fail) -/
+theorem ch_log_ext_shapes {r : Bool} {es : List (Nat × Bytes)} {m : CHMsg}
+    (h : chExts { renegSup := r } es = some m) : ∀ e ∈ es, CHExtShape e := by
+  rw [chExts_eq_fold] at h
+  exact fold_all_mem (fun _ _ _ _ _ hs => chExt_shape hs) h
+
+/-- supported_groups (10): the logged curve list is the concatenation, in wire order, of the big-endian uint16 lists of
+    ALL supported_groups extensions (each `len16 ‖ body`, see `ch_log_ext_shapes`) -/
+theorem ch_log_ext_curves {r : Bool} {es : List (Nat × Bytes)} {f : CHFixed} {m : CHMsg}
+    (h : chExts { renegSup := r } es = some m) :
+    (chLog f m).curves = ((es.filter (isId 10)).map (fun e => pairsBE (e.2.drop 2))).flatten := by
+  rw [chExts_eq_fold] at h
+  have := fold_acc_map_id (step := chExt) CHMsg.curves 10 (fun d => pairsBE (d.drop 2))
+    (fun m d l m' hs => by rw [(chExt_curves hs).2]) (fun m id d l m' hne hs => (chExt_frame hs).2.2.1 hne) h
+  simpa [chLog] using this
+
+/-- signature_algorithms (13): the logged (signature, hash) pairs are the schemes of ALL signature_algorithms
+    extensions, in wire order, looked up in `signatureAlgorithms` (`sigAlgTable`); schemes not in the table are dropped -/
+theorem ch_log_ext_sighashes {r : Bool} {es : List (Nat × Bytes)} {f : CHFixed} {m : CHMsg}
+    (h : chExts { renegSup := r } es = some m) :
+    (chLog f m).sigHashes =
+      (((es.filter (isId 13)).map (fun e => pairsBE (e.2.drop 2))).flatten).filterMap sigAlgLookup := by
+  rw [chExts_eq_fold] at h
+  have := fold_acc_map_id (step := chExt) CHMsg.sigAlgs 13 (fun d => pairsBE (d.drop 2))
+    (fun m d l m' hs => by rw [(chExt_sigAlgs hs).2])
+    (fun m id d l m' hne hs => (chExt_frame hs).2.2.2.2.2.1 hne) h
+  simp only [chLog, this, List.nil_append]
+
+/-- what `sigAlgLookup` is: the first (and only) row of the table with that scheme -/
+theorem sigAlgLookup_table (s sg hh : Nat) : sigAlgLookup s = some (sg, hh) ↔ (s, sg, hh) ∈ sigAlgTable := by
+  unfold sigAlgLookup
+  constructor
+  · intro h
+    cases hf : sigAlgTable.find? (fun e => e.1 == s) with
+    | none => simp only [hf] at h; cases h
+    | some t =>
+      obtain ⟨s', sg', h'⟩ := t
+      simp only [hf, Option.some.injEq, Prod.mk.injEq] at h
+      obtain ⟨rfl, rfl⟩ := h
+      have hm := List.mem_of_find?_eq_some hf
+      have hs := List.find?_some hf
+      simp only [beq_iff_eq] at hs
+      subst hs
+      exact hm
+  · intro h
+    simp only [sigAlgTable, List.mem_cons, Prod.mk.injEq, List.not_mem_nil, or_false] at h
+    rcases h with ⟨rfl, rfl, rfl⟩ | ⟨rfl, rfl, rfl⟩ | ⟨rfl, rfl, rfl⟩ | ⟨rfl, rfl, rfl⟩ | ⟨rfl, rfl, rfl⟩ |
+      ⟨rfl, rfl, rfl⟩ | ⟨rfl, rfl, rfl⟩ | ⟨rfl, rfl, rfl⟩ | ⟨rfl, rfl, rfl⟩ | ⟨rfl, rfl, rfl⟩ | ⟨rfl, rfl, rfl⟩ |
+      ⟨rfl, rfl, rfl⟩ <;> rfl
+
+/-- supported_versions (43): concatenation, in wire order, of the uint16 lists (`len8 ‖ body`) of all such extensions -/
+theorem ch_log_ext_versions {r : Bool} {es : List (Nat × Bytes)} {f : CHFixed} {m : CHMsg}
+    (h : chExts { renegSup := r } es = some m) :
+    (chLog f m).sv = ((es.filter (isId 43)).map (fun e => pairsBE (e.2.drop 1))).flatten := by
+  rw [chExts_eq_fold] at h
+  have := fold_acc_map_id (step := chExt) CHMsg.sv 43 (fun d => pairsBE (d.drop 1))
+    (fun m d l m' hs => by rw [(chExt_sv hs).2])
+    (fun m id d l m' hne hs => (chExt_frame hs).2.2.2.2.2.2.2.2.2.1 hne) h
+  simpa [chLog] using this
+
+/-- ALPN (16): the logged protocol list is the concatenation, in wire order, of the protocol lists of all ALPN
+    extensions; each is `len16 ‖ (len8 ‖ proto)*` with non-empty protocols (`AlpnExt`, which determines the list) -/
+theorem ch_log_ext_alpn {r : Bool} {es : List (Nat × Bytes)} {f : CHFixed} {m : CHMsg}
+    (h : chExts { renegSup := r } es = some m) :
+    ∃ ls, ListRel (fun e l => AlpnExt e.2 l) (es.filter (isId 16)) ls ∧ (chLog f m).alpn = ls.flatten := by
+  rw [chExts_eq_fold] at h
+  obtain ⟨xs, hrel, heq⟩ := fold_acc_id (step := chExt) CHMsg.alpn 16 AlpnExt
+    (fun m d l m' hs => by
+      obtain ⟨p, hp, e⟩ := chExt_alpn hs
+      exact ⟨p, hp, by rw [e]⟩)
+    (fun m id d l m' hne hs => (chExt_frame hs).2.2.2.2.2.2.2.1 hne) h
+  exact ⟨xs, hrel, by simpa [chLog] using heq⟩
+
+/-- ec_point_formats (11): the LAST extension wins; its data is `len8 ‖ formats` and `formats` is logged -/
+theorem ch_log_ext_points {r : Bool} {es : List (Nat × Bytes)} {f : CHFixed} {m : CHMsg}
+    (h : chExts { renegSup := r } es = some m) :
+    (chLog f m).points = (match lastExt (isId 11) es with | some d => d.drop 1 | none => []) := by
+  rw [chExts_eq_fold] at h
+  exact fold_last_id (step := chExt) CHMsg.points 11 (fun d => d.drop 1)
+    (fun m d l m' hs => by rw [(chExt_points hs).2]) (fun m id d l m' hne hs => (chExt_frame hs).2.2.2.1 hne) h
+
+/-- session_ticket (35): the flag is mere presence; the logged ticket is the data of the LAST extension, and a ticket
+    record exists iff that data is non-empty -/
+theorem ch_log_ext_ticket {r : Bool} {es : List (Nat × Bytes)} {f : CHFixed} {m : CHMsg}
+    (h : chExts { renegSup := r } es = some m) :
+    (chLog f m).ticket = es.any (isId 35) ∧
+    (chLog f m).sessionTicket =
+      (match lastExt (isId 35) es with
+       | some d => if d.length > 0 then some (d.length, d) else none
+       | none => none) ∧
+    (∀ n v, (chLog f m).sessionTicket = some (n, v) ↔ lastExt (isId 35) es = some v ∧ v ≠ [] ∧ n = v.length) := by
+  rw [chExts_eq_fold] at h
+  have h1 := fold_flag_id (step := chExt) CHMsg.tick 35
+    (fun m d l m' hs => by rw [chExt_ticket hs]) (fun m id d l m' hne hs => ((chExt_frame hs).2.2.2.2.1 hne).1) h
+  have h2 := fold_last_id (step := chExt) CHMsg.ticket 35 (fun d => d)
+    (fun m d l m' hs => by rw [chExt_ticket hs]) (fun m id d l m' hne hs => ((chExt_frame hs).2.2.2.2.1 hne).2) h
+  have h3 : (chLog f m).sessionTicket =
+      (match lastExt (isId 35) es with
+       | some d => if d.length > 0 then some (d.length, d) else none
+       | none => none) := by
+    simp only [chLog, h2]
+    cases lastExt (isId 35) es with
+    | none => rfl
+    | some d => rfl
+  refine ⟨by simpa [chLog] using h1, h3, ?_⟩
+  intro n v
+  rw [h3]
+  cases lastExt (isId 35) es with
+  | none => simp
+  | some d =>
+    simp only [Option.some.injEq]
+    by_cases hd : d.length > 0
+    · rw [if_pos hd]
+      simp only [Option.some.injEq, Prod.mk.injEq]
+      constructor
+      · rintro ⟨rfl, rfl⟩
+        exact ⟨rfl, fun hn => by rw [hn] at hd; exact Nat.lt_irrefl 0 hd, rfl⟩
+      · rintro ⟨rfl, _, rfl⟩
+        exact ⟨rfl, rfl⟩
+    · rw [if_neg hd]
+      have : d = [] := List.eq_nil_of_length_eq_zero (by omega)
+      subst this
+      constructor
+      · intro hc; cases hc
+      · rintro ⟨rfl, hne, _⟩; exact absurd rfl hne
+
+/-- renegotiation_info (0xff01): exactly as `MakeLog` computes it — "supported" (SCSV among the suites, or any
+    renegotiation_info extension) AND the renegotiated_connection of the LAST extension non-empty — which boils down
+    to: the last renegotiation_info extension carries more than its length byte.  NOTE what this says: an initial
+    handshake's empty renegotiation_info (`ff01 0001 00`), and the SCSV alone, are both logged as `false`. -/
+theorem ch_log_ext_reneg {r : Bool} {es : List (Nat × Bytes)} {f : CHFixed} {m : CHMsg}
+    (h : chExts { renegSup := r } es = some m) :
+    (chLog f m).secureReneg =
+      ((r || es.any (isId 0xff01)) &&
+        decide (0 < (match lastExt (isId 0xff01) es with | some d => d.drop 1 | none => []).length)) ∧
+    (chLog f m).secureReneg = (match lastExt (isId 0xff01) es with | some d => decide (1 < d.length) | none => false) := by
+  rw [chExts_eq_fold] at h
+  have h1 := fold_flag_id (step := chExt) CHMsg.renegSup 0xff01
+    (fun m d l m' hs => by rw [(chExt_reneg hs).2]) (fun m id d l m' hne hs => ((chExt_frame hs).2.2.2.2.2.2.1 hne).2) h
+  have h2 := fold_last_id (step := chExt) CHMsg.reneg 0xff01 (fun d => d.drop 1)
+    (fun m d l m' hs => by rw [(chExt_reneg hs).2]) (fun m id d l m' hne hs => ((chExt_frame hs).2.2.2.2.2.2.1 hne).1) h
+  have e1 : (chLog f m).secureReneg =
+      ((r || es.any (isId 0xff01)) &&
+        decide (0 < (match lastExt (isId 0xff01) es with | some d => d.drop 1 | none => []).length)) := by
+    show (m.renegSup && decide (m.reneg.length > 0)) = _
+    rw [h1, h2]; rfl
+  refine ⟨e1, ?_⟩
+  rw [e1]
+  cases hl : lastExt (isId 0xff01) es with
+  | none => simp
+  | some d =>
+    simp only [(any_isId_true_of_lastExt_some hl).1, Bool.or_true, Bool.true_and]
+    exact drop_one_length_pos d
+
+/-- extended_random (0x28): the LAST extension wins; `len16 ‖ value`, `value` is logged -/
+theorem ch_log_ext_xrand {r : Bool} {es : List (Nat × Bytes)} {f : CHFixed} {m : CHMsg}
+    (h : chExts { renegSup := r } es = some m) :
+    (chLog f m).xrand = (match lastExt (isId 0x28) es with | some d => d.drop 2 | none => []) := by
+  rw [chExts_eq_fold] at h
+  exact fold_last_id (step := chExt) CHMsg.xrand 0x28 (fun d => d.drop 2)
+    (fun m d l m' hs => by rw [(chExt_xrand hs).2])
+    (fun m id d l m' hne hs => (chExt_frame hs).2.2.2.2.2.2.2.2.2.2.1 hne) h
+
+/-- status_request (5): what holds is NOT "present ⇒ true": the logged flag is `status_type = 1` of the LAST
+    status_request extension (false when there is none) -/
+theorem ch_log_ext_ocsp {r : Bool} {es : List (Nat × Bytes)} {f : CHFixed} {m : CHMsg}
+    (h : chExts { renegSup := r } es = some m) :
+    (chLog f m).ocsp = (match lastExt (isId 5) es with | some d => ocspStatusIs1 d | none => false) := by
+  rw [chExts_eq_fold] at h
+  exact fold_last_id (step := chExt) CHMsg.ocsp 5 ocspStatusIs1
+    (fun m d l m' hs => by rw [(chExt_ocsp hs).2]) (fun m id d l m' hne hs => (chExt_frame hs).2.1 hne) h
+
+/-- signed_certificate_timestamp (18) and extended_master_secret (23): presence flags (the data must be empty) -/
+theorem ch_log_ext_flags {r : Bool} {es : List (Nat × Bytes)} {f : CHFixed} {m : CHMsg}
+    (h : chExts { renegSup := r } es = some m) :
+    (chLog f m).scts = es.any (isId 18) ∧ (chLog f m).ems = es.any (isId 23) := by
+  rw [chExts_eq_fold] at h
+  have h1 := fold_flag_id (step := chExt) CHMsg.scts 18
+    (fun m d l m' hs => by rw [(chExt_scts hs).2])
+    (fun m id d l m' hne hs => (chExt_frame hs).2.2.2.2.2.2.2.2.1 hne) h
+  have h2 := fold_flag_id (step := chExt) CHMsg.ems 23
+    (fun m d l m' hs => by rw [(chExt_ems hs).2])
+    (fun m id d l m' hne hs => (chExt_frame hs).2.2.2.2.2.2.2.2.2.2.2 hne) h
+  exact ⟨by simpa [chLog] using h1, by simpa [chLog] using h2⟩
+
+/-- server_name (0): the name loop runs over the name lists of ALL server_name extensions, in wire order
+    (`xs` = those lists, each `len16 ‖ (type ‖ len16 ‖ name)*` with non-empty names).  Either there is no host_name
+    (type 0) entry at all and nothing is logged, or there is EXACTLY ONE in all the lists together, it is non-empty,
+    does not end in '.', and is the logged name. -/
+theorem ch_log_ext_sni {r : Bool} {es : List (Nat × Bytes)} {f : CHFixed} {m : CHMsg}
+    (h : chExts { renegSup := r } es = some m) :
+    ∃ xs, ListRel (fun e ents => SniExt e.2 ents) (es.filter (isId 0)) xs ∧
+      ((sniHosts xs.flatten = [] ∧ (chLog f m).sni = []) ∨
+       (sniHosts xs.flatten = [(chLog f m).sni] ∧ (chLog f m).sni ≠ [] ∧ (chLog f m).sni.getLast? ≠ some 46)) := by
+  obtain ⟨xs, hrel, hpick⟩ := chExts_sni es _ m h
+  refine ⟨xs, hrel, ?_⟩
+  have hne : ∀ e ∈ xs.flatten, e.2 ≠ [] := by
+    clear hpick
+    generalize es.filter (isId 0) = l0 at hrel
+    induction hrel with
+    | nil => intro e he; cases he
+    | cons hab _ ih =>
+      intro e he
+      rw [List.flatten_cons, List.mem_append] at he
+      rcases he with he | he
+      · obtain ⟨_, _, _, _, _, _, hf⟩ := hab
+        exact framedSNI_names_ne hf e he
+      · exact ih e he
+  exact sniPick_spec hne hpick
+
+/-- the extension-derived part of the ClientHello log as a function of the wire extension list -/
+structure CHExtSpec (es : List (Nat × Bytes)) (L : CHLog) : Prop where
+  shapes : ∀ e ∈ es, CHExtShape e
+  curves : L.curves = ((es.filter (isId 10)).map (fun e => pairsBE (e.2.drop 2))).flatten
+  sigHashes : L.sigHashes = (((es.filter (isId 13)).map (fun e => pairsBE (e.2.drop 2))).flatten).filterMap sigAlgLookup
+  sv : L.sv = ((es.filter (isId 43)).map (fun e => pairsBE (e.2.drop 1))).flatten
+  alpn : ∃ ls, ListRel (fun e l => AlpnExt e.2 l) (es.filter (isId 16)) ls ∧ L.alpn = ls.flatten
+  points : L.points = (match lastExt (isId 11) es with | some d => d.drop 1 | none => [])
+  ticket : L.ticket = es.any (isId 35)
+  sessionTicket : L.sessionTicket =
+    (match lastExt (isId 35) es with
+     | some d => if d.length > 0 then some (d.length, d) else none
+     | none => none)
+  secureReneg : L.secureReneg = (match lastExt (isId 0xff01) es with | some d => decide (1 < d.length) | none => false)
+  xrand : L.xrand = (match lastExt (isId 0x28) es with | some d => d.drop 2 | none => [])
+  ocsp : L.ocsp = (match lastExt (isId 5) es with | some d => ocspStatusIs1 d | none => false)
+  scts : L.scts = es.any (isId 18)
+  ems : L.ems = es.any (isId 23)
+  sni : ∃ xs, ListRel (fun e ents => SniExt e.2 ents) (es.filter (isId 0)) xs ∧
+      ((sniHosts xs.flatten = [] ∧ L.sni = []) ∨
+       (sniHosts xs.flatten = [L.sni] ∧ L.sni ≠ [] ∧ L.sni.getLast? ≠ some 46))
+
+/-- all extension-derived ClientHello log fields at once -/
+theorem ch_log_ext_eq_wire {r : Bool} {es : List (Nat × Bytes)} {f : CHFixed} {m : CHMsg}
+    (h : chExts { renegSup := r } es = some m) : CHExtSpec es (chLog f m) :=
+  { shapes := ch_log_ext_shapes h, curves := ch_log_ext_curves h, sigHashes := ch_log_ext_sighashes h,
+    sv := ch_log_ext_versions h, alpn := ch_log_ext_alpn h, points := ch_log_ext_points h,
+    ticket := (ch_log_ext_ticket h).1, sessionTicket := (ch_log_ext_ticket h).2.1,
+    secureReneg := (ch_log_ext_reneg h).2, xrand := ch_log_ext_xrand h, ocsp := ch_log_ext_ocsp h,
+    scts := (ch_log_ext_flags h).1, ems := (ch_log_ext_flags h).2, sni := ch_log_ext_sni h }
+
+/-- without extensions every extension-derived field has its default value (in particular `secureReneg = false`
+    even when the SCSV 0x00ff is among the suites) -/
+theorem ch_log_no_ext {L : CHLog} (h : CHExtSpec [] L) :
+    L.curves = [] ∧ L.sigHashes = [] ∧ L.sv = [] ∧ L.alpn = [] ∧ L.points = [] ∧ L.ticket = false ∧
+    L.sessionTicket = none ∧ L.secureReneg = false ∧ L.xrand = [] ∧ L.ocsp = false ∧ L.scts = false ∧
+    L.ems = false ∧ L.sni = [] := by
+  refine ⟨h.curves, h.sigHashes, h.sv, ?_, h.points, h.ticket, h.sessionTicket, h.secureReneg, h.xrand, h.ocsp,
+    h.scts, h.ems, ?_⟩
+  · obtain ⟨ls, hrel, e⟩ := h.alpn
+    cases hrel
+    exact e
+  · obtain ⟨xs, hrel, hs⟩ := h.sni
+    cases hrel
+    rcases hs with ⟨_, e⟩ | ⟨e, _⟩
+    · exact e
+    · cases e
+
+/-- ClientHello, whole message: the bytes are exactly
+      hdr(4) ‖ version ‖ random(32) ‖ len8‖session_id ‖ len16‖suites ‖ len8‖compression_methods ‖ ext
+    with the logged version / random / session id / suites (big-endian pairs, even length) / compression methods being
+    those fields; `ext` is empty (then `es = []`) or `len16 ‖ blk` where `blk` is EXACTLY the concatenation of
+    id ‖ len ‖ data of the extension list `es`; and every extension-derived log field is the function of `es` given
+    by `CHExtSpec`. -/
+theorem ch_log_eq_wire {msg : Bytes} {f : CHFixed} {m : CHMsg} (h : parseCH msg = some (f, m)) :
+    ∃ hdr v1 v2 sl s1 s2 suiteBytes cl ext es,
+      msg = hdr ++ (v1 :: v2 :: ((chLog f m).random ++ (sl :: ((chLog f m).sessionID ++
+              (s1 :: s2 :: (suiteBytes ++ (cl :: ((chLog f m).comps ++ ext)))))))) ∧
+      hdr.length = 4 ∧ (chLog f m).version = u16 v1 v2 ∧ (chLog f m).random.length = 32 ∧
+      sl.toNat = (chLog f m).sessionID.length ∧ u16 s1 s2 = suiteBytes.length ∧
+      u16s suiteBytes = some (chLog f m).suites ∧ (chLog f m).suites = pairsBE suiteBytes ∧
+      suiteBytes.length % 2 = 0 ∧ cl.toNat = (chLog f m).comps.length ∧
+      ((ext = [] ∧ es = []) ∨
+       (∃ e1 e2 blk, ext = e1 :: e2 :: blk ∧ u16 e1 e2 = blk.length ∧ FramedExts blk es ∧
+          blk = (es.map (fun e => extBytes e.1 e.2)).flatten)) ∧
+      chExts { renegSup := (chLog f m).suites.contains 0x00ff } es = some m ∧
+      CHExtSpec es (chLog f m) := by
+  obtain ⟨hdr, v1, v2, sl, s1, s2, sb, cl, ext, hmsg, hl, hv, hr, hsl, hs, hsu, hcl, hext⟩ := parseCH_inv h
+  obtain ⟨hp, hev⟩ := u16s_spec sb f.suites hsu
+  rcases hext with ⟨rfl, hm⟩ | ⟨e1, e2, blk, es, rfl, hb, hfr, hch⟩
+  · have hch : chExts { renegSup := f.suites.contains 0x00ff } [] = some m := by rw [hm]; rfl
+    exact ⟨hdr, v1, v2, sl, s1, s2, sb, cl, [], [], hmsg, hl, hv, hr, hsl, hs, hsu, hp, hev, hcl,
+      Or.inl ⟨rfl, rfl⟩, hch, ch_log_ext_eq_wire hch⟩
+  · exact ⟨hdr, v1, v2, sl, s1, s2, sb, cl, e1 :: e2 :: blk, es, hmsg, hl, hv, hr, hsl, hs, hsu, hp, hev, hcl,
+      Or.inr ⟨e1, e2, blk, rfl, hb, hfr, framedExts_bytes hfr⟩, hch, ch_log_ext_eq_wire hch⟩
+
+/-! ## ServerHello: the extension part of `serverHelloMsg.unmarshal` + `MakeLog` -/
+
+theorem sh_log_ext_shapes {es : List (Nat × Bytes)} {m : SHMsg} (h : shExts {} es = some m) :
+    ∀ e ∈ es, SHExtShape e := by
+  rw [shExts_eq_fold] at h
+  exact fold_all_mem (fun _ _ _ _ _ hs => shExt_shape hs) h
+
+/-- status_request (5), session_ticket (35), extended_master_secret (23): presence (data must be empty) -/
+theorem sh_log_ext_flags {es : List (Nat × Bytes)} {f : SHFixed} {m : SHMsg} {ids : Option (List Nat)}
+    (h : shExts {} es = some m) :
+    (shLog f m ids).ocsp = es.any (isId 5) ∧ (shLog f m ids).ticket = es.any (isId 35) ∧
+    (shLog f m ids).ems = es.any (isId 23) := by
+  rw [shExts_eq_fold] at h
+  have h1 := fold_flag_id (step := fun m id d _ => shExt m id d) SHMsg.ocsp 5
+    (fun m d l m' hs => by rw [(shExt_ocsp hs).2]) (fun m id d l m' hne hs => (shExt_frame hs).1 hne) h
+  have h2 := fold_flag_id (step := fun m id d _ => shExt m id d) SHMsg.tick 35
+    (fun m d l m' hs => by rw [(shExt_tick hs).2]) (fun m id d l m' hne hs => (shExt_frame hs).2.1 hne) h
+  have h3 := fold_flag_id (step := fun m id d _ => shExt m id d) SHMsg.ems 23
+    (fun m d l m' hs => by rw [(shExt_ems hs).2])
+    (fun m id d l m' hne hs => (shExt_frame hs).2.2.2.2.2.2.2.1 hne) h
+  exact ⟨by simpa [shLog] using h1, by simpa [shLog] using h2, by simpa [shLog] using h3⟩
+
+/-- renegotiation_info (0xff01): as `MakeLog` computes it, and what that amounts to on the wire -/
+theorem sh_log_ext_reneg {es : List (Nat × Bytes)} {f : SHFixed} {m : SHMsg} {ids : Option (List Nat)}
+    (h : shExts {} es = some m) :
+    (shLog f m ids).secureReneg =
+      (es.any (isId 0xff01) &&
+        decide (0 < (match lastExt (isId 0xff01) es with | some d => d.drop 1 | none => []).length)) ∧
+    (shLog f m ids).secureReneg =
+      (match lastExt (isId 0xff01) es with | some d => decide (1 < d.length) | none => false) := by
+  rw [shExts_eq_fold] at h
+  have h1 := fold_flag_id (step := fun m id d _ => shExt m id d) SHMsg.renegSup 0xff01
+    (fun m d l m' hs => by rw [(shExt_reneg hs).2]) (fun m id d l m' hne hs => ((shExt_frame hs).2.2.1 hne).2) h
+  have h2 := fold_last_id (step := fun m id d _ => shExt m id d) SHMsg.reneg 0xff01 (fun d => d.drop 1)
+    (fun m d l m' hs => by rw [(shExt_reneg hs).2]) (fun m id d l m' hne hs => ((shExt_frame hs).2.2.1 hne).1) h
+  have e1 : (shLog f m ids).secureReneg =
+      (es.any (isId 0xff01) &&
+        decide (0 < (match lastExt (isId 0xff01) es with | some d => d.drop 1 | none => []).length)) := by
+    show (m.renegSup && decide (m.reneg.length > 0)) = _
+    rw [h1, h2]; rfl
+  refine ⟨e1, ?_⟩
+  rw [e1]
+  cases hl : lastExt (isId 0xff01) es with
+  | none => simp
+  | some d =>
+    simp only [(any_isId_true_of_lastExt_some hl).1, Bool.true_and]
+    exact drop_one_length_pos d
+
+/-- ALPN (16): the single protocol of the LAST ALPN extension (`len16 ‖ len8 ‖ proto`) -/
+theorem sh_log_ext_alpn {es : List (Nat × Bytes)} {f : SHFixed} {m : SHMsg} {ids : Option (List Nat)}
+    (h : shExts {} es = some m) :
+    (shLog f m ids).alpn = (match lastExt (isId 16) es with | some d => d.drop 3 | none => []) := by
+  rw [shExts_eq_fold] at h
+  exact fold_last_id (step := fun m id d _ => shExt m id d) SHMsg.alpn 16 (fun d => d.drop 3)
+    (fun m d l m' hs => by rw [(shExt_alpn hs).2]) (fun m id d l m' hne hs => (shExt_frame hs).2.2.2.1 hne) h
+
+/-- signed_certificate_timestamp (18): the SCT lists of all such extensions, concatenated in wire order -/
+theorem sh_log_ext_scts {es : List (Nat × Bytes)} {f : SHFixed} {m : SHMsg} {ids : Option (List Nat)}
+    (h : shExts {} es = some m) :
+    ∃ ls, ListRel (fun e l => SctExt e.2 l) (es.filter (isId 18)) ls ∧ (shLog f m ids).scts = ls.flatten := by
+  rw [shExts_eq_fold] at h
+  obtain ⟨xs, hrel, heq⟩ := fold_acc_id (step := fun m id d _ => shExt m id d) SHMsg.scts 18 SctExt
+    (fun m d l m' hs => by
+      obtain ⟨p, hp, e⟩ := shExt_scts hs
+      exact ⟨p, hp, by rw [e]⟩)
+    (fun m id d l m' hne hs => (shExt_frame hs).2.2.2.2.1 hne) h
+  exact ⟨xs, hrel, by simpa [shLog] using heq⟩
+
+/-- supported_versions (43): the LAST one wins.  key_share (51): as `MakeLog` computes it — only when a
+    selected version is present; the group of the last key_share carrying a key, else (if that is absent or names
+    group 0) the group of the last 2-byte (HelloRetryRequest-style) key_share. -/
+theorem sh_log_ext_version_keyshare {es : List (Nat × Bytes)} {f : SHFixed} {m : SHMsg} {ids : Option (List Nat)}
+    (h : shExts {} es = some m) :
+    (shLog f m ids).selectedVersion = (match lastExt (isId 43) es with | some d => be16 d | none => 0) ∧
+    (shLog f m ids).keyShareGroup =
+      (if (shLog f m ids).selectedVersion ≠ 0 then
+         (if lastGroup isShare es ≠ 0 then lastGroup isShare es else lastGroup isSel es)
+       else 0) := by
+  rw [shExts_eq_fold] at h
+  have h1 := fold_last_id (step := fun m id d _ => shExt m id d) SHMsg.sv 43 be16
+    (fun m d l m' hs => by rw [(shExt_sv hs).2]) (fun m id d l m' hne hs => (shExt_frame hs).2.2.2.2.2.1 hne) h
+  have h2 := shExts_shareGroup h
+  have h3 := shExts_selGroup h
+  refine ⟨h1, ?_⟩
+  have e2 : m.shareGroup = lastGroup isShare es := h2
+  have e3 : m.selGroup = lastGroup isSel es := h3
+  simp only [shLog, e2, e3]
+
+/-- every extension without an arm of its own is logged VERBATIM (`extBytes` = its wire bytes, see
+    `sh_log_ext_eq_wire`), in wire order; the others never are -/
+theorem sh_log_ext_unknown {es : List (Nat × Bytes)} {f : SHFixed} {m : SHMsg} {ids : Option (List Nat)}
+    (h : shExts {} es = some m) :
+    (shLog f m ids).unknown = (es.filter isUnknown).map (fun e => extBytes e.1 e.2) := by
+  rw [shExts_eq_fold] at h
+  have := shExts_unknown h
+  simpa [shLog] using this
+
+/-- the extension-derived part of the ServerHello log as a function of the wire extension list -/
+structure SHExtSpec (es : List (Nat × Bytes)) (L : SHLog) : Prop where
+  shapes : ∀ e ∈ es, SHExtShape e
+  extIds : L.extIds = es.map (·.1)
+  ocsp : L.ocsp = es.any (isId 5)
+  ticket : L.ticket = es.any (isId 35)
+  ems : L.ems = es.any (isId 23)
+  secureReneg : L.secureReneg = (match lastExt (isId 0xff01) es with | some d => decide (1 < d.length) | none => false)
+  alpn : L.alpn = (match lastExt (isId 16) es with | some d => d.drop 3 | none => [])
+  scts : ∃ ls, ListRel (fun e l => SctExt e.2 l) (es.filter (isId 18)) ls ∧ L.scts = ls.flatten
+  selectedVersion : L.selectedVersion = (match lastExt (isId 43) es with | some d => be16 d | none => 0)
+  keyShareGroup : L.keyShareGroup =
+    (if L.selectedVersion ≠ 0 then (if lastGroup isShare es ≠ 0 then lastGroup isShare es else lastGroup isSel es)
+     else 0)
+  unknown : L.unknown = (es.filter isUnknown).map (fun e => extBytes e.1 e.2)
+
+/-- ServerHello, whole message incl. extensions: after the fixed part (`sh_log_eq_wire`) comes `ext`, which is empty
+    (no identifiers logged) or `len16 ‖ blk` with `blk` EXACTLY the concatenation of id ‖ len ‖ data of the list `es`;
+    the logged extension identifiers are those of `es` in wire order, and every extension-derived log field is the
+    function of `es` given by `SHExtSpec`. -/
+theorem sh_log_ext_eq_wire {msg : Bytes} {f : SHFixed} {m : SHMsg} {ids : Option (List Nat)}
+    (h : parseSH msg = some (f, m, ids)) :
+    ∃ hdr v1 v2 sl c1 c2 cm ext es,
+      msg = hdr ++ (v1 :: v2 :: ((shLog f m ids).random ++ (sl :: ((shLog f m ids).sessionID ++ (c1 :: c2 :: cm :: ext))))) ∧
+      hdr.length = 4 ∧ (shLog f m ids).version = u16 v1 v2 ∧ (shLog f m ids).random.length = 32 ∧
+      sl.toNat = (shLog f m ids).sessionID.length ∧ (shLog f m ids).cipherSuite = u16 c1 c2 ∧
+      (shLog f m ids).compression = cm.toNat ∧
+      ((ext = [] ∧ es = [] ∧ ids = none) ∨
+       (∃ e1 e2 blk, ext = e1 :: e2 :: blk ∧ u16 e1 e2 = blk.length ∧ FramedExts blk es ∧
+          blk = (es.map (fun e => extBytes e.1 e.2)).flatten ∧ ids = some (es.map (·.1)))) ∧
+      shExts {} es = some m ∧
+      SHExtSpec es (shLog f m ids) := by
+  obtain ⟨hdr, v1, v2, sl, c1, c2, cm, ext, hmsg, hl, hv, hr, hsl, hsu, hcm, hext⟩ := parseSH_inv h
+  have spec : ∀ es, shExts {} es = some m → (shLog f m ids).extIds = es.map (·.1) → SHExtSpec es (shLog f m ids) :=
+    fun es hs hid =>
+      { shapes := sh_log_ext_shapes hs, extIds := hid, ocsp := (sh_log_ext_flags hs).1,
+        ticket := (sh_log_ext_flags hs).2.1, ems := (sh_log_ext_flags hs).2.2,
+        secureReneg := (sh_log_ext_reneg hs).2, alpn := sh_log_ext_alpn hs, scts := sh_log_ext_scts hs,
+        selectedVersion := (sh_log_ext_version_keyshare hs).1, keyShareGroup := (sh_log_ext_version_keyshare hs).2,
+        unknown := sh_log_ext_unknown hs }
+  rcases hext with ⟨rfl, hm, hids⟩ | ⟨e1, e2, blk, es, rfl, hb, hfr, hsh, hids⟩
+  · have hsh : shExts {} [] = some m := by rw [hm]; rfl
+    exact ⟨hdr, v1, v2, sl, c1, c2, cm, [], [], hmsg, hl, hv, hr, hsl, hsu, hcm, Or.inl ⟨rfl, rfl, hids⟩, hsh,
+      spec [] hsh (by rw [hids]; rfl)⟩
+  · exact ⟨hdr, v1, v2, sl, c1, c2, cm, e1 :: e2 :: blk, es, hmsg, hl, hv, hr, hsl, hsu, hcm,
+      Or.inr ⟨e1, e2, blk, rfl, hb, hfr, framedExts_bytes hfr, hids⟩, hsh, spec es hsh (by rw [hids]; rfl)⟩
+
+
+/-- the decoded lists are DETERMINED by the wire bytes: the existentials in `CHExtSpec.alpn`, `CHExtSpec.sni` and
+    `SHExtSpec.scts` have exactly one witness -/
+theorem ext_lists_determined {l : List (Nat × Bytes)} :
+    (∀ {ls ls'}, ListRel (fun e x => AlpnExt e.2 x) l ls → ListRel (fun e x => AlpnExt e.2 x) l ls' → ls = ls') ∧
+    (∀ {xs xs'}, ListRel (fun e x => SniExt e.2 x) l xs → ListRel (fun e x => SniExt e.2 x) l xs' → xs = xs') ∧
+    (∀ {ls ls'}, ListRel (fun e x => SctExt e.2 x) l ls → ListRel (fun e x => SctExt e.2 x) l ls' → ls = ls') := by
+  refine ⟨?_, ?_, ?_⟩
+  · intro ls ls' h h'
+    exact ListRel.unique (fun (e : Nat × Bytes) x x' (h1 : AlpnExt e.2 x) (h2 : AlpnExt e.2 x') => alpnExt_unique h1 h2) h h'
+  · intro xs xs' h h'
+    exact ListRel.unique (fun (e : Nat × Bytes) x x' (h1 : SniExt e.2 x) (h2 : SniExt e.2 x') => sniExt_unique h1 h2) h h'
+  · intro ls ls' h h'
+    exact ListRel.unique (fun (e : Nat × Bytes) x x' (h1 : SctExt e.2 x) (h2 : SctExt e.2 x') => sctExt_unique h1 h2) h h'
+
+/-- … and so is the extension list itself: a block has one framing -/
+theorem ext_block_determined {blk : Bytes} {es es' : List (Nat × Bytes)} (h : FramedExts blk es)
+    (h' : FramedExts blk es') : es = es' := framedExts_unique h h'
+
+/-! ### the hypotheses are satisfiable: a ClientHello and a ServerHello with many (also repeated) extensions -/
+
+/-- ClientHello: SNI "ab.c", renegotiation_info (empty), supported_groups [29,23], ec_point_formats, signature_algorithms
+    (one unknown scheme), ALPN h2 + http/1.1, supported_versions, session_ticket 010203, EMS, SCT, status_request,
+    extended_random, a SECOND supported_groups [24], an unknown extension, key_share, a SECOND renegotiation_info (07) -/
+def chEx : Bytes :=
+    [1, 0, 0, 186, 3, 3, 0, 1, 2, 3, 4, 5, 6, 7, 8, 9, 10, 11, 12, 13, 14, 15, 16, 17, 18, 19, 20, 21, 22, 23, 24,
+   25, 26, 27, 28, 29, 30, 31, 2, 170, 187, 0, 6, 19, 1, 192, 47, 0, 255, 1, 0, 0, 137, 0, 0, 0, 9, 0, 7, 0, 0, 4,
+   97, 98, 46, 99, 255, 1, 0, 1, 0, 0, 10, 0, 6, 0, 4, 0, 29, 0, 23, 0, 11, 0, 2, 1, 0, 0, 13, 0, 8, 0, 6, 8, 4, 4,
+   3, 18, 52, 0, 16, 0, 14, 0, 12, 2, 104, 50, 8, 104, 116, 116, 112, 47, 49, 46, 49, 0, 43, 0, 5, 4, 3, 4, 3, 3, 0,
+   35, 0, 3, 1, 2, 3, 0, 23, 0, 0, 0, 18, 0, 0, 0, 5, 0, 5, 1, 0, 0, 0, 0, 0, 40, 0, 4, 0, 2, 170, 187, 0, 10, 0, 4,
+   0, 2, 0, 24, 18, 52, 0, 2, 222, 173, 0, 51, 0, 8, 0, 6, 0, 29, 0, 2, 9, 9, 255, 1, 0, 2, 1, 7]
+def chExEs : List (Nat × Bytes) :=
+    [(0, [0, 7, 0, 0, 4, 97, 98, 46, 99]), (65281, [0]), (10, [0, 4, 0, 29, 0, 23]), (11, [1, 0]), (13, [0, 6, 8, 4,
+   4, 3, 18, 52]), (16, [0, 12, 2, 104, 50, 8, 104, 116, 116, 112, 47, 49, 46, 49]), (43, [4, 3, 4, 3, 3]), (35, [1,
+   2, 3]), (23, []), (18, []), (5, [1, 0, 0, 0, 0]), (40, [0, 2, 170, 187]), (10, [0, 2, 0, 24]), (4660, [222,
+   173]), (51, [0, 6, 0, 29, 0, 2, 9, 9]), (65281, [1, 7])]
+
+def chExMsg : CHMsg :=
+  { renegSup := true, reneg := [7], ocsp := true, tick := true, ticket := [1, 2, 3], sni := [97, 98, 46, 99],
+    scts := true, curves := [29, 23, 24], points := [0], sv := [772, 771], sigAlgs := [2052, 1027, 4660],
+    alpn := [[104, 50], [104, 116, 116, 112, 47, 49, 46, 49]], ems := true, xrand := [170, 187] }
+
+set_option maxRecDepth 8000 in
+example : parseCH chEx =
+    some ({ vers := 771, random := (List.range 32).map UInt8.ofNat, sid := [170, 187], suites := [4865, 49199, 255],
+            comps := [0] }, chExMsg) := by
+  simp [chEx, chExMsg, parseCH, splitExts, chExts, chExt, wholeVec16, wholeVec8, readVec16, readVec8, readU16, readU8,
+    takeN, u16, u16s, sniEntries, sniPick, splitVec8s, keyShares, List.range, List.range.loop]
+
+example : chExts { renegSup := true } chExEs = some chExMsg := by
+  simp [chExEs, chExMsg, chExts, chExt, wholeVec16, wholeVec8, readVec16, readVec8, readU16, readU8, takeN, u16, u16s,
+    sniEntries, sniPick, splitVec8s, keyShares]
+
+-- the spec side on that list: both supported_groups extensions contribute, the LAST renegotiation_info decides
+example : ((chExEs.filter (isId 10)).map (fun e => pairsBE (e.2.drop 2))).flatten = [29, 23, 24] := by decide
+example : lastExt (isId 0xff01) chExEs = some [1, 7] ∧ lastExt (isId 35) chExEs = some [1, 2, 3] := by decide
+example : (((chExEs.filter (isId 13)).map (fun e => pairsBE (e.2.drop 2))).flatten).filterMap sigAlgLookup
+    = [(sigRSA, hSHA256), (sigECDSA, hSHA256)] := by decide
+
+/-- ServerHello: renegotiation_info (empty), ALPN h2, an unknown extension, SCT list (2), supported_versions 0304,
+    key_share x25519, EMS, session_ticket, status_request, a second unknown extension, a SECOND SCT list (1), a SECOND
+    renegotiation_info (07 08) -/
+def shEx : Bytes :=
+    [2, 0, 0, 126, 3, 3, 0, 1, 2, 3, 4, 5, 6, 7, 8, 9, 10, 11, 12, 13, 14, 15, 16, 17, 18, 19, 20, 21, 22, 23, 24,
+   25, 26, 27, 28, 29, 30, 31, 2, 170, 187, 19, 1, 0, 0, 84, 255, 1, 0, 1, 0, 0, 16, 0, 5, 0, 3, 2, 104, 50, 18, 52,
+   0, 2, 222, 173, 0, 18, 0, 10, 0, 8, 0, 3, 1, 2, 3, 0, 1, 4, 0, 43, 0, 2, 3, 4, 0, 51, 0, 7, 0, 29, 0, 3, 9, 9, 9,
+   0, 23, 0, 0, 0, 35, 0, 0, 0, 5, 0, 0, 86, 120, 0, 0, 0, 18, 0, 6, 0, 4, 0, 2, 5, 6, 255, 1, 0, 3, 2, 7, 8]
+def shExEs : List (Nat × Bytes) :=
+    [(65281, [0]), (16, [0, 3, 2, 104, 50]), (4660, [222, 173]), (18, [0, 8, 0, 3, 1, 2, 3, 0, 1, 4]), (43, [3, 4]),
+   (51, [0, 29, 0, 3, 9, 9, 9]), (23, []), (35, []), (5, []), (22136, []), (18, [0, 4, 0, 2, 5, 6]), (65281, [2, 7,
+   8])]
+
+def shExMsg : SHMsg :=
+  { ocsp := true, tick := true, renegSup := true, reneg := [7, 8], ems := true, alpn := [104, 50],
+    scts := [[1, 2, 3], [4], [5, 6]], sv := 772, shareGroup := 29, selGroup := 0,
+    unknown := [[18, 52, 0, 2, 222, 173], [86, 120, 0, 0]] }
+
+set_option maxRecDepth 8000 in
+example : parseSH shEx =
+    some ({ vers := 771, random := (List.range 32).map UInt8.ofNat, sid := [170, 187], suite := 4865, comp := 0 },
+      shExMsg, some [65281, 16, 4660, 18, 43, 51, 23, 35, 5, 22136, 18, 65281]) := by
+  simp [shEx, shExMsg, parseSH, splitExts, shExts, shExt, wholeVec16, wholeVec8, readVec16, readVec8, readU16, readU8,
+    takeN, u16, splitVec16s, extBytes, List.range, List.range.loop]
+
+example : shExts {} shExEs = some shExMsg := by
+  simp [shExEs, shExMsg, shExts, shExt, wholeVec16, wholeVec8, readVec16, readVec8, readU16, readU8, takeN, u16,
+    splitVec16s, extBytes]
+
+example : (shExEs.filter isUnknown).map (fun e => extBytes e.1 e.2) = [[18, 52, 0, 2, 222, 173], [86, 120, 0, 0]] ∧
+    lastGroup isShare shExEs = 29 ∧ lastExt (isId 16) shExEs = some [0, 3, 2, 104, 50] := by decide
+
+-- a framed block and a CHExtSpec / ListRel instance exist (hypotheses of `ext_block_determined`, `ch_log_no_ext`,
+-- `ext_lists_determined`)
+example : FramedExts [0, 23, 0, 0, 0, 10, 0, 4, 0, 2, 0, 29] [(23, []), (10, [0, 2, 0, 29])] :=
+  splitExts_framed _ _ (by simp [splitExts, u16])
+example : CHExtSpec [] (chLog ⟨771, [], [], [], []⟩ {}) := ch_log_ext_eq_wire (r := false) rfl
+example : ListRel (fun (e : Nat × Bytes) x => AlpnExt e.2 x) [(16, [0, 3, 2, 104, 50])] [[[104, 50]]] :=
+  ListRel.cons ⟨0, 3, [2, 104, 50], rfl, rfl, by simp, Framed8s.cons 2 [104, 50] [] [] rfl Framed8s.nil, by simp⟩
+    ListRel.nil
 
 example : parseCerts [11, 0, 0, 7, 0, 0, 4, 0, 0, 1, 9] = some [[9]] := by
   simp [parseCerts, readU24, certEntries]
